@@ -104,7 +104,8 @@ pub fn plan(projects: &[Project], opts: &Opts) -> Vec<Value> {
     }
     // ---- byte-level faults
     if thorough {
-        for p in projects {
+        // exhaustive offsets: every corpus project and the first 60 generated ones
+        for p in projects.iter().filter(|p| !p.id.starts_with("gen/") || p.id.rsplit('/').next().and_then(|i| i.parse::<u32>().ok()).is_some_and(|i| i < 60)) {
             for (file, data) in &p.files {
                 for k in 0..data.len() {
                     cases.push(json!({"kind": "read", "project": p.id, "faults": [{"op": "truncate", "file": file, "k": k}], "decoys": false, "codegen": true}));
@@ -137,7 +138,7 @@ pub fn plan(projects: &[Project], opts: &Opts) -> Vec<Value> {
             }
         }
     }
-    let n_byte = if thorough { 200_000 } else { 60_000 };
+    let n_byte = if thorough { 400_000 } else { 90_000 };
     for i in 0..n_byte {
         let mut rng = Rng::for_run(opts.seed, i as u64);
         let p = pick_project(projects, &mut rng);
